@@ -297,6 +297,15 @@ def client_transmit(B):
         if builds[0][0] == "rebuild":
             B.prove("every-key-passed-through", all(builds[0][1].get(k) is kw[k] or
                     (kw[k] is not None and E.values_equal(ctx, builds[0][1].get(k), kw[k]) is True) for k in KEYS), top=True)
+    # the response parser is prepared for THIS request: a HEAD answer has no body, so the method it is told must be the one just sent
+    reinits = [(i, e) for i, e in enumerate(m["log"]) if e[0] == "reinit"]
+    if kw["method"] is not None:
+        bi = [i for i, e in enumerate(m["log"]) if e[0] in ("build", "rebuild")]
+        B.prove("respondent-reinitialised-once-after-the-request-was-built-with-the-method-just-sent",
+                z3.And(z3.BoolVal(len(reinits) == 1 and bool(bi) and reinits[0][0] > bi[0]), z(reinits[0][1][1].get("method")) == z(kw["method"]))
+                if len(reinits) == 1 and reinits[0][1][1].get("method") is not None else False, top=True)
+    else:
+        B.prove("respondent-method-kept-when-no-method-is-given", all(e[1].get("method") is None for _, e in reinits), top=True)
     B.prove("queue-untouched", queue_unchanged(B, m), top=True)
 
 
